@@ -110,6 +110,7 @@ type Case struct {
 	Tmp     string // scratch directory private to this case (removed afterwards)
 	Verbose bool
 
+	mu   sync.Mutex // Case methods may be called from several goroutines of a check
 	rec  caseRecord
 	note func(string)
 }
@@ -140,6 +141,8 @@ type caseRecord struct {
 
 // Violatef records a violation.
 func (c *Case) Violatef(sig, format string, args ...any) {
+	c.mu.Lock()
+	defer c.mu.Unlock()
 	d := fmt.Sprintf(format, args...)
 	if len(d) > 4000 {
 		d = d[:4000] + "…"
@@ -153,10 +156,20 @@ func (c *Case) Violatef(sig, format string, args ...any) {
 }
 
 // Failed reports whether the case recorded a violation.
-func (c *Case) Failed() bool { return len(c.rec.Violations) > 0 }
+func (c *Case) Failed() bool {
+	c.mu.Lock()
+	defer c.mu.Unlock()
+	return len(c.rec.Violations) > 0
+}
 
 // Count adds n to a named coverage counter.
 func (c *Case) Count(name string, n int) {
+	c.mu.Lock()
+	defer c.mu.Unlock()
+	c.count(name, n)
+}
+
+func (c *Case) count(name string, n int) {
 	if c.rec.Counts == nil {
 		c.rec.Counts = map[string]int{}
 	}
@@ -166,16 +179,20 @@ func (c *Case) Count(name string, n int) {
 // Nontrivial marks this case (or a sub-case) as non-trivial by the check's rule. key identifies it
 // for the distinct count; it is hashed, so it may be long.
 func (c *Case) Nontrivial(key string) {
+	c.mu.Lock()
+	defer c.mu.Unlock()
 	h := sha256.Sum256([]byte(key))
 	if len(c.rec.Nontrivial) < 4096 {
 		c.rec.Nontrivial = append(c.rec.Nontrivial, hex.EncodeToString(h[:8]))
 	} else {
-		c.Count("nontrivial_keys_dropped", 1)
+		c.count("nontrivial_keys_dropped", 1)
 	}
 }
 
 // Sample stores a written-out example of what this case explored.
 func (c *Case) Sample(v any) {
+	c.mu.Lock()
+	defer c.mu.Unlock()
 	if c.rec.Sample == nil {
 		c.rec.Sample = v
 	}
@@ -183,6 +200,8 @@ func (c *Case) Sample(v any) {
 
 // Inconclusive marks the case as undecided.
 func (c *Case) Inconclusive(format string, args ...any) {
+	c.mu.Lock()
+	defer c.mu.Unlock()
 	c.rec.Inconcl = fmt.Sprintf(format, args...)
 }
 
